@@ -8,6 +8,7 @@ import (
 	"log"
 	"net"
 	"os"
+	"sort"
 	"strconv"
 	"strings"
 	"time"
@@ -22,6 +23,10 @@ import (
 //   X <conn> <hexraw>     raw message bytes
 //   P <db> <hexkey> <value> <deadline-ms>   store a value directly (canonical value text)
 //   D <db>                the embedded caller selects a database (API call SelectDB)
+//   AQ <conn> <hex> ...   decision of the authorization gate only ("Z allow|deny|nocmd|panic")
+//   AD <conn> <hex> ...   decision, and when it is "deny" the command is run as well ("Z ...", "R ...")
+//   AU                    digest of the ACL and of the registered connections
+//   AB                    digest of the pub/sub state
 //   A <ms>                advance the virtual clock
 //   W <db>                one synchronous round of the expiry sampler
 //   G                     digest
@@ -197,6 +202,52 @@ func main() {
 				out.Flush()
 			case "G":
 				fmt.Fprintf(out, "G %s\n", in.db.VerifDigest())
+				out.Flush()
+			case "AQ", "AD":
+				id, _ := strconv.Atoi(f[1])
+				argv := make([]string, len(f)-2)
+				for i, h := range f[2:] {
+					argv[i] = unhex(h)
+				}
+				dec := in.db.VerifAuthorize(in.conn(id), argv)
+				fmt.Fprintf(out, "Z %s\n", dec)
+				if f[0] == "AD" && dec == "deny" {
+					res, herr, pan := in.db.VerifHandle(in.conn(id), encode(argv))
+					switch {
+					case pan != "":
+						fmt.Fprintf(out, "R !\n")
+					case herr != nil:
+						fmt.Fprintf(out, "R -\n")
+					default:
+						fmt.Fprintf(out, "R %s\n", canon(res))
+					}
+				}
+				out.Flush()
+			case "AU":
+				ids := make([]int, 0, len(in.conns))
+				for id := range in.conns {
+					ids = append(ids, id)
+				}
+				sort.Ints(ids)
+				cs := make([]*net.Conn, len(ids))
+				for i, id := range ids {
+					cs[i] = in.conns[id]
+				}
+				fmt.Fprintf(out, "U %s\n", in.db.VerifAclDigest(cs))
+				out.Flush()
+			case "AB":
+				var parts []string
+				for _, q := range [][]string{{"PUBSUB", "CHANNELS"}, {"PUBSUB", "NUMPAT"}} {
+					res, herr, pan := in.db.VerifHandle(nil, encode(q))
+					if pan != "" || herr != nil {
+						parts = append(parts, "!")
+						continue
+					}
+					toks := strings.Fields(canon(res))
+					sort.Strings(toks)
+					parts = append(parts, strings.Join(toks, ","))
+				}
+				fmt.Fprintf(out, "B %s\n", strings.Join(parts, "|"))
 				out.Flush()
 			case "E":
 				fmt.Fprintf(out, "E\n")
